@@ -85,6 +85,29 @@ def roundtrip_batch(specs, p, tag, start_index=0):
             p.violation(dict(oracle="print-parse", field="differs", mnemonic=specs[i][0]), dict(kind="one", spec=list(specs[i]), addr=a),
                         f"{tag}: {specs[i]} prints as {repr(o)!r} and re-assembles at {a} to {type(got).__name__}{fg}, expected {type(o).__name__}{fo}", size=(i,))
             return
+    # the LISTING of the whole batch (one memory holding many instructions of one mnemonic that differ in a single operand):
+    # a line that is not simply the stored instruction's own text must still assemble, at its address, to that instruction
+    try:
+        listing = sim.get_instruction_memory_entries()
+    except Exception as e:  # noqa
+        p.violation(dict(oracle="listing-of-a-batch", field="error"), dict(kind="batch", specs=[list(s) for s in specs[:50]]), f"{tag}: the listing of the batch raised {type(e).__name__}: {e!r}")
+        return
+    p.counters["listing-of-a-batch"] += 1
+    if len(listing) != len(objs):
+        p.violation(dict(oracle="listing-of-a-batch", field="length"), dict(kind="batch", specs=[list(s) for s in specs[:50]]), f"{tag}: the listing has {len(listing)} lines for {len(objs)} instructions")
+        return
+    for i, ((a, _hx), text, _stage) in enumerate(listing):
+        if a != 4 * i:
+            p.violation(dict(oracle="listing-of-a-batch", field="address"), dict(kind="batch", specs=[list(s) for s in specs[:50]]), f"{tag}: listing line {i} has address {a}")
+            return
+        stored = im.read_instruction(a)
+        if text != repr(stored):
+            want = (type(stored).__name__, asm.fields_full(stored)) + ((stored.abs_addr,) if type(stored).__name__ == "JAL" else ())
+            d = text_denotes(text, a, want)
+            if d:
+                p.violation(dict(oracle="listing-of-a-batch", field="line-denotes-another-instruction", mnemonic=specs[i][0]), dict(kind="batch", specs=[list(s) for s in specs[:i + 1]], line=i),
+                            f"{tag}: in the listing of a program of {len(objs)} instructions line {i} reads {text!r}: {d}", size=(i,))
+                return
     if start_index == 0:
         p.sample(dict(kind="one", spec=list(specs[len(specs) // 2]), text=repr(objs[len(specs) // 2])))
 
@@ -455,7 +478,7 @@ def run(ctx):
     t0 = time.time()
     part = pmap(overwrite_shard, list(range(len(OVERWRITE_SPECS))))
     ctx.space("listing-after-in-place-overwrite", part, t0, pairs=len(OVERWRITE_SPECS) ** 2, addresses=3)
-    ctx.require("listing-after-in-place-overwrite")
+    ctx.require("listing-after-in-place-overwrite", "listing-of-a-batch")
     t0 = time.time()
     part = Partial()
     for ti in range(len(DUP_TEXTS)):
